@@ -437,7 +437,7 @@ def check_stream(I, O, col, viol):
             if np.ndim(spm_got) != 0 or not near(spm_got, want, O.tol64(want)):
                 viol("stream-spm-not-support-total", "SPM %r but genotypes with allele set %s total %.12g (GT %s)"
                      % (spm_got, sorted(set(g)), want, g), {"flags": flags})
-            elif not (float(r[2]) <= float(spm_got) + 1e-12 and float(spm_got) <= 1 + 1e-12):
+            elif not (float(r[2]) <= float(spm_got) + 1e-9 and float(spm_got) <= 1 + 1e-9):   # a sum over thousands of genotypes rounds at ~1e-11
                 viol("probability-invariant-broken", "GPM %.15g <= SPM %.15g <= 1 does not hold" % (r[2], spm_got), {"flags": flags})
         if f:
             got = r[k]
@@ -772,7 +772,7 @@ def check_program(I, col, rng, others=None, order=None):
             ws = O.spm(g)
             if sd["SPM"] is not None and not near(sd["SPM"], ws, O.tol32(ws)):
                 viol("program-spm-wrong", "SPM %r, genotypes with allele set %s total %.10g" % (sd["SPM"], sorted(set(g)), ws), rkey, s)
-            if sd["GPM"] is not None and sd["SPM"] is not None and not (float(sd["GPM"]) <= float(sd["SPM"]) + 1e-12 and float(sd["SPM"]) <= 1 + 1e-9):
+            if sd["GPM"] is not None and sd["SPM"] is not None and not (float(sd["GPM"]) <= float(sd["SPM"]) + 1e-9 and float(sd["SPM"]) <= 1 + 1e-9):
                 viol("probability-invariant-broken", "program GPM %.15g <= SPM %.15g <= 1 does not hold" % (sd["GPM"], sd["SPM"]), rkey, s)
             for fid, want, tolf in (("AFP", O.afp, O.tol32), ("ACP", O.acp, lambda v, O=O, ploidy=ploidy: O.tol32(v, ploidy)), ("AOP", O.aop, O.tol32)):
                 if sd[fid] is None:
